@@ -1160,6 +1160,27 @@ theorem DevOK_setModel {w : World} (h : DevOK w) (m : MId) (ms' : ModelS) (hm : 
       · rw [h1]; exact hm
     exact hmo.ext hext (Nat.le_refl _) (fun n _ _ nc hnc => ⟨nc, hnc, rfl⟩)
 
+/-- `DevOK` reads the values, configuration records, nodes and models only (not the graphs) -/
+theorem DevOK_of_eq {w w' : World} (h : DevOK w) (hv : w'.values = w.values) (hc : w'.cfgs = w.cfgs)
+    (hn : w'.nodes = w.nodes) (hm : w'.models = w.models) : DevOK w' :=
+  h.ext_same_nodes (Ext.of_eq hv hc) hn hm
+
+theorem DevOK_setGraph {w : World} (h : DevOK w) (g : GId) (gs : GraphS) : DevOK (w.setGraph g gs) :=
+  DevOK_of_eq h rfl rfl rfl rfl
+
+theorem DevOK_mapModels {w : World} (h : DevOK w) (f : ModelS → ModelS)
+    (hf : ∀ ms ∈ w.models, ModelOK w (f ms)) : DevOK { w with models := w.models.map f } := by
+  have hext : Ext w { w with models := w.models.map f } := Ext.of_eq rfl rfl
+  constructor
+  · intro nd hnd; exact (h.1 nd hnd).ext hext
+  · intro ms' hms'
+    simp only [List.mem_map] at hms'
+    obtain ⟨ms, hms, rfl⟩ := hms'
+    exact (hf ms hms).ext hext (Nat.le_refl _) (fun n _ _ nc hnc => ⟨nc, hnc, rfl⟩)
+
+theorem ModelOK_graphs {w : World} {ms : ModelS} (gs : List GId) (h : ModelOK w ms) :
+    ModelOK w { ms with graphs := gs } := h
+
 theorem DevOK_newModel {w : World} (h : DevOK w) (ir : Nat) : DevOK (newModel w ir).1 := by
   unfold newModel
   constructor
@@ -1170,24 +1191,43 @@ theorem DevOK_newModel {w : World} (h : DevOK w) (ir : Nat) : DevOK (newModel w 
     · exact (h.2 ms h1).ext (Ext.of_eq rfl rfl) (Nat.le_refl _) (fun n _ _ nc hnc => ⟨nc, hnc, rfl⟩)
     · subst h1; exact ⟨by simp, by simp, by simp⟩
 
-theorem DevOK_newInput {w : World} (h : DevOK w) (m : MId) (name : String) (shape : Option (List Dim)) :
-    DevOK (newInput w m name shape).1 := by
+theorem DevOK_newInput {w : World} (h : DevOK w) (g : GId) (name : String) (shape : Option (List Dim)) :
+    DevOK (newInput w g name shape).1 := by
   unfold newInput
   simp only
   have h1 : DevOK { w with values := w.values ++ [({ name := name, shape := shape } : ValueS)] } :=
     h.ext_same_nodes (Ext_append_values w _) rfl rfl
-  refine DevOK_setModel h1 m _ ?_
-  have := h1.model m
-  exact this
+  exact DevOK_setGraph h1 g _
+
+theorem DevOK_newSubgraph {w : World} (h : DevOK w) (n : NId) : DevOK (newSubgraph w n).1 := by
+  unfold newSubgraph
+  simp only
+  generalize hf : (fun ms : ModelS => if n ∈ ms.nodes then { ms with graphs := ms.graphs ++ [w.graphs.length] } else ms) = f
+  have hA : DevOK { w with models := w.models.map f } := by
+    apply DevOK_mapModels h
+    intro ms hms
+    subst hf
+    simp only
+    split
+    · exact ModelOK_graphs _ (h.2 ms hms)
+    · exact h.2 ms hms
+  have hB : DevOK { w with graphs := w.graphs ++ [{}], models := w.models.map f } :=
+    DevOK_of_eq hA rfl rfl rfl rfl
+  refine DevOK_setNode_keep hB n _ ?_ ?_
+  · show (w.node n).dev = keepIO _ (w.node n).dev
+    have hio := h.specs_io n
+    conv => lhs; rw [← keepIO_self hio]
+    exact keepIO_congr _ (fun v => Iff.rfl)
+  · exact (h.node n).1
 
 theorem node_append_left (w : World) (extra : List NodeS) (vals : List ValueS) (n : NId)
     (hn : n < w.nodes.length) :
     World.node { w with values := vals, nodes := w.nodes ++ extra } n = w.node n := by
   simp [World.node, List.getD_eq_getElem?_getD, List.getElem?_append_left hn]
 
-theorem DevOK_newNode {w : World} (h : DevOK w) (m : MId) (ins : List (Option VId))
-    (outs : List (String × Option (List Dim))) (hpre : Pre w (.newNode m ins outs)) :
-    DevOK (newNode w m ins outs).1 := by
+theorem DevOK_newNode {w : World} (h : DevOK w) (g : GId) (ins : List (Option VId))
+    (outs : List (String × Option (List Dim))) (hpre : Pre w (.newNode g ins outs)) :
+    DevOK (newNode w g ins outs).1 := by
   unfold newNode
   simp only
   generalize hnew : ({ inputs := ins, outputs := List.range' w.values.length outs.length, dev := [] } : NodeS) = newnd
@@ -1206,6 +1246,12 @@ theorem DevOK_newNode {w : World} (h : DevOK w) (m : MId) (ins : List (Option VI
       subst hvals
       simp only [List.length_append, List.length_map]
       exact hv.2
+  have hmodel : ∀ ms ∈ w.models, ModelOK { w with values := vals, nodes := w.nodes ++ [newnd] } ms := by
+    intro ms hms
+    refine (h.2 ms hms).ext hext (by simp) ?_
+    intro n _ hn nc hnc
+    rw [node_append_left w _ _ n hn] at hnc
+    exact ⟨nc, hnc, rfl⟩
   have h1 : DevOK { w with values := vals, nodes := w.nodes ++ [newnd] } := by
     constructor
     · intro nd hnd
@@ -1213,59 +1259,59 @@ theorem DevOK_newNode {w : World} (h : DevOK w) (m : MId) (ins : List (Option VI
       rcases hnd with h' | h'
       · exact (h.1 nd h').ext hext
       · rw [h']; exact hnewok
-    · intro ms hms
-      refine (h.2 ms hms).ext hext (by simp) ?_
-      intro n _ hn nc hnc
-      rw [node_append_left w _ _ n hn] at hnc
-      exact ⟨nc, hnc, rfl⟩
-  refine DevOK_setModel h1 m _ ?_
-  obtain ⟨a, b, c⟩ := h.model m
-  have hm0 : ModelOK { w with values := vals, nodes := w.nodes ++ [newnd] } (w.model m) := by
-    refine ModelOK.ext hext (by simp) ?_ ⟨a, b, c⟩
-    intro n _ hn nc hnc
-    rw [node_append_left w _ _ n hn] at hnc
-    exact ⟨nc, hnc, rfl⟩
-  obtain ⟨a', b', c'⟩ := hm0
-  refine ⟨?_, b', c'⟩
-  intro n hn
-  simp only [List.mem_append, List.mem_singleton] at hn
-  rcases hn with hn | hn
-  · exact a' n hn
-  · subst hn
-    refine ⟨by simp, ?_⟩
-    intro nc hnc
-    have : World.node { w with values := vals, nodes := w.nodes ++ [newnd] } w.nodes.length = newnd := by
-      simp [World.node, List.getD_eq_getElem?_getD]
-    rw [this] at hnc
-    subst hnew
-    simp at hnc
+    · exact hmodel
+  generalize hf : (fun ms : ModelS => if g ∈ ms.graphs then { ms with nodes := ms.nodes ++ [w.nodes.length] } else ms) = f
+  have h2 : DevOK { ({ w with values := vals, nodes := w.nodes ++ [newnd] } : World) with models := w.models.map f } := by
+    apply DevOK_mapModels h1
+    intro ms hms
+    subst hf
+    simp only
+    split
+    · obtain ⟨a', b', c'⟩ := hmodel ms hms
+      refine ⟨?_, b', c'⟩
+      intro n hn
+      simp only [List.mem_append, List.mem_singleton] at hn
+      rcases hn with hn | hn
+      · exact a' n hn
+      · subst hn
+        refine ⟨by simp, ?_⟩
+        intro nc hnc
+        have : World.node { w with values := vals, nodes := w.nodes ++ [newnd] } w.nodes.length = newnd := by
+          simp [World.node, List.getD_eq_getElem?_getD]
+        rw [this] at hnc
+        subst hnew
+        simp at hnc
+    · exact hmodel ms hms
+  exact DevOK_setGraph (DevOK_of_eq h2 rfl rfl rfl rfl) g _
 
 theorem ModelOK_nodes_subset {w : World} {ms : ModelS} (l : List NId) (hl : ∀ n ∈ l, n ∈ ms.nodes)
     (h : ModelOK w ms) : ModelOK w { ms with nodes := l } :=
   ⟨fun n hn => h.1 n (hl n hn), h.2.1, h.2.2⟩
 
-theorem DevOK_removeNode {w : World} (h : DevOK w) (m : MId) (n : NId) (safe : Bool) :
-    DevOK (removeNode w m n safe).1 := by
+theorem DevOK_removeNode {w : World} (h : DevOK w) (g : GId) (n : NId) (safe : Bool) :
+    DevOK (removeNode w g n safe).1 := by
   unfold removeNode
   simp only
   split
   · exact h
   · split
     · exact h
-    · have h1 : DevOK (w.setNode n (if safe = true then
+    · generalize hnd1 : (if safe = true then
           (List.range' 0 (w.node n).inputs.length).foldl (fun a i => replaceInputNode a i none) (w.node n)
-          else w.node n)) := by
+          else w.node n) = nd1
+      have h1 : DevOK (w.setNode n nd1) := by
+        subst hnd1
         split
         · have hd := detachInputs_detached (List.range' 0 (w.node n).inputs.length) (h.specs_io n)
           exact DevOK_setNode_keep h n _ hd.dev (NodeIds_of_sub (h.node n).1 hd.io)
         · exact DevOK_setNode_keep h n _ (keepIO_self (h.specs_io n)).symm (h.node n).1
-      refine DevOK_setModel h1 m _ ?_
-      have hm := h1.model m
-      have hmm : (w.setNode n (if safe = true then
-          (List.range' 0 (w.node n).inputs.length).foldl (fun a i => replaceInputNode a i none) (w.node n)
-          else w.node n)).model m = w.model m := rfl
-      rw [hmm] at hm
-      exact ModelOK_nodes_subset _ (fun k hk => (List.mem_filter.mp hk).1) hm
+      have h2 := DevOK_setGraph h1 g { (w.graph g) with nodes := (w.graph g).nodes.filter (fun k => decide (k ≠ n)) }
+      apply DevOK_mapModels h2
+      intro ms hms
+      by_cases hg : g ∈ ms.graphs
+      · rw [if_pos hg]
+        exact ModelOK_graphs _ (ModelOK_nodes_subset _ (fun k hk => (List.mem_filter.mp hk).1) (h2.2 ms hms))
+      · rw [if_neg hg]; exact h2.2 ms hms
 
 /-! ### `add_device_configuration`, `remove_device_configuration(cascade=True)` -/
 
@@ -1672,27 +1718,27 @@ theorem remapSpec_of_lookup {vm : VMap} {s : Spec} {b : VId} (h : vlookup vm s.v
   simp [remapSpec, h]
 
 /-- the node `clone_node` creates -/
-def clonedNode (wc : World) (ins : List (Option VId)) (nd : NodeS) (vm1 : VMap) : NodeS :=
-  { inputs := ins, outputs := List.range' wc.values.length nd.outputs.length, dev := remapDev vm1 nd.dev }
+def clonedNode (wc : World) (ins : List (Option VId)) (nd : NodeS) (vm1 : VMap) (subs : List GId) : NodeS :=
+  { inputs := ins, outputs := List.range' wc.values.length nd.outputs.length, dev := remapDev vm1 nd.dev,
+    subgraphs := subs }
 
-theorem cloneNode_inv {w : World} {cfgs : List CId} {wc : World} {vm : VMap} {nd : NodeS}
+/-- creating the clone of node `nd` once its inputs have been resolved (through the map `vm`) and its
+    subgraphs cloned -/
+theorem buildNode_inv {w : World} {cfgs : List CId} {wc : World} {vm : VMap} {nd : NodeS}
     (h : CloneInv w cfgs wc vm) (hnd : NodeOK w nd) (hreg : ∀ nc ∈ nd.dev, nc.cfg ∈ cfgs)
-    {w1 : World} {vm1 : VMap} {k : NId} (hc : cloneNode (wc, vm) nd = some (w1, vm1, k)) :
-    CloneInv w cfgs w1 vm1 ∧ k = wc.nodes.length ∧ w1.nodes.length = wc.nodes.length + 1 := by
-  unfold cloneNode at hc
-  simp only at hc
-  cases hci : cloneInputs vm nd.inputs with
-  | none => simp [hci] at hc
-  | some ins =>
-    simp only [hci, Option.some.injEq, Prod.mk.injEq] at hc
-    obtain ⟨hw1, hvm1, hk⟩ := hc
-    obtain ⟨hin1, hin2⟩ := cloneInputs_spec hci
-    have hlen : nd.outputs.length = (List.range' wc.values.length nd.outputs.length).length := by simp
-    have hv1 : w1.values = wc.values ++ nd.outputs.map wc.value := by rw [← hw1]
-    have hc1 : w1.cfgs = wc.cfgs := by rw [← hw1]
-    have hm1 : w1.models = wc.models := by rw [← hw1]
-    have hn1 : w1.nodes = wc.nodes ++ [(clonedNode wc ins nd vm1)] := by rw [← hw1, ← hvm1]; rfl
-    clear hw1
+    {ins : List (Option VId)} {subs : List GId}
+    (hin1 : ∀ v, some v ∈ nd.inputs → ∃ b, vlookup vm v = some b ∧ some b ∈ ins)
+    (hin2 : ∀ b, some b ∈ ins → ∃ v, some v ∈ nd.inputs ∧ vlookup vm v = some b)
+    {w1 : World} {vm1 : VMap}
+    (hv1 : w1.values = wc.values ++ nd.outputs.map wc.value) (hc1 : w1.cfgs = wc.cfgs)
+    (hm1 : w1.models = wc.models) (hn1 : w1.nodes = wc.nodes ++ [(clonedNode wc ins nd vm1 subs)])
+    (hvm1 : (nd.outputs.zip (List.range' wc.values.length nd.outputs.length)).reverse ++ vm = vm1) :
+    CloneInv w cfgs w1 vm1 ∧ w1.nodes.length = wc.nodes.length + 1 := by
+  have hlen : nd.outputs.length = (List.range' wc.values.length nd.outputs.length).length := by simp
+  have hk : wc.nodes.length = wc.nodes.length := rfl
+  cases hdummy : (some ins : Option (List (Option VId))) with
+  | none => cases hdummy
+  | some ins0 =>
     have hext1 : Ext wc w1 := Ext.of_append _ hv1 hc1
     have hextw : Ext w w1 := h.ext.trans hext1
     have hzip : ∀ a b, (a, b) ∈ (nd.outputs.zip (List.range' wc.values.length nd.outputs.length)).reverse →
@@ -1729,10 +1775,10 @@ theorem cloneNode_inv {w : World} {cfgs : List CId} {wc : World} {vm : VMap} {nd
         rw [e] at h1
         exact Nat.lt_irrefl _ (Nat.lt_of_lt_of_le h2 h1)
     -- the new node
-    have hnewok : NodeOK w1 (clonedNode wc ins nd vm1) ∧ ∀ nc ∈ remapDev vm1 nd.dev, nc.cfg ∈ cfgs := by
+    have hnewok : NodeOK w1 (clonedNode wc ins nd vm1 subs) ∧ ∀ nc ∈ remapDev vm1 nd.dev, nc.cfg ∈ cfgs := by
       obtain ⟨hids, hndup, hall⟩ := hnd
       have hlook : ∀ v, InIO nd v → ∃ b, vlookup vm1 v = some b ∧
-          InIO (clonedNode wc ins nd vm1) b := by
+          InIO (clonedNode wc ins nd vm1 subs) b := by
         intro v hv
         by_cases hvo : v ∈ nd.outputs
         · obtain ⟨b, hb⟩ := vlookup_zip_mem hlen vm v hvo
@@ -1812,90 +1858,361 @@ theorem cloneNode_inv {w : World} {cfgs : List CId} {wc : World} {vm : VMap} {nd
         obtain ⟨nc, hnc, rfl⟩ := hnc'
         exact hreg nc hnc
     obtain ⟨extra, hex, hok⟩ := h.nodes
-    refine ⟨⟨hextw, by rw [hc1, h.cfgsEq], by rw [hm1, h.models], ?_, hvmLt, hvmShape, hvmInj⟩, hk.symm, by rw [hn1]; simp⟩
-    refine ⟨extra ++ [(clonedNode wc ins nd vm1)], by rw [hn1, hex, List.append_assoc], ?_⟩
+    refine ⟨⟨hextw, by rw [hc1, h.cfgsEq], by rw [hm1, h.models], ?_, hvmLt, hvmShape, hvmInj⟩, by rw [hn1]; simp⟩
+    refine ⟨extra ++ [(clonedNode wc ins nd vm1 subs)], by rw [hn1, hex, List.append_assoc], ?_⟩
     intro x hx
     simp only [List.mem_append, List.mem_singleton] at hx
     rcases hx with hx | hx
     · exact ⟨(hok x hx).1.ext hext1, (hok x hx).2⟩
     · rw [hx]; exact hnewok
 
-theorem cloneNodes_inv {w : World} {cfgs : List CId} : ∀ (nds : List NodeS) {wc : World} {vm : VMap}
-    {acc : List NId} {w1 : World} {vm1 : VMap} {ns : List NId},
-    CloneInv w cfgs wc vm → (∀ nd ∈ nds, NodeOK w nd ∧ ∀ nc ∈ nd.dev, nc.cfg ∈ cfgs) →
-    (∀ n ∈ acc, w.nodes.length ≤ n ∧ n < wc.nodes.length) →
-    cloneNodes (wc, vm) nds acc = some (w1, vm1, ns) →
-    CloneInv w cfgs w1 vm1 ∧ ∀ n ∈ ns, w.nodes.length ≤ n ∧ n < w1.nodes.length := by
-  intro nds
-  induction nds with
+/-- lookups that exist are kept -/
+def VMono (vm vm' : VMap) : Prop := ∀ x b, vlookup vm x = some b → vlookup vm' x = some b
+
+theorem VMono.refl (vm : VMap) : VMono vm vm := fun _ _ h => h
+theorem VMono.trans {a b c : VMap} (h1 : VMono a b) (h2 : VMono b c) : VMono a c :=
+  fun x y h => h2 x y (h1 x y h)
+
+theorem vlookup_cons (vm : VMap) (a x b : VId) :
+    vlookup ((a, b) :: vm) x = if a = x then some b else vlookup vm x := by
+  unfold vlookup
+  simp only [List.find?_cons]
+  by_cases h : a = x <;> simp [h]
+
+theorem cloneValue_mono (st : World × VMap) (v : VId) : VMono st.2 (cloneValue st v).2 := by
+  unfold cloneValue
+  cases hl : vlookup st.2 v with
+  | some b => simp only; exact VMono.refl _
+  | none =>
+    simp only
+    intro x b hx
+    rw [vlookup_cons]
+    split
+    · rename_i e; subst e; rw [hl] at hx; cases hx
+    · exact hx
+
+theorem cloneValue_nodes (st : World × VMap) (v : VId) : (cloneValue st v).1.nodes = st.1.nodes := by
+  unfold cloneValue
+  split <;> rfl
+
+theorem foldl_cloneValue_nodes (ins : List VId) : ∀ (st : World × VMap),
+    (ins.foldl cloneValue st).1.nodes = st.1.nodes := by
+  induction ins with
+  | nil => intro st; rfl
+  | cons v rest ih => intro st; simp only [List.foldl_cons]; rw [ih, cloneValue_nodes]
+
+theorem foldl_cloneValue_mono (ins : List VId) : ∀ (st : World × VMap),
+    VMono st.2 (ins.foldl cloneValue st).2 := by
+  induction ins with
+  | nil => intro st; exact VMono.refl _
+  | cons v rest ih =>
+    intro st
+    simp only [List.foldl_cons]
+    exact (cloneValue_mono st v).trans (ih _)
+
+/-! #### the instrumentation flag only ever goes up -/
+
+def OverMono (rec : CSt → GId → Option (CSt × GId)) : Prop :=
+  ∀ st g st' g', rec st g = some (st', g') → st'.over = false → st.over = false
+
+theorem cloneSubgraphs_over {rec : CSt → GId → Option (CSt × GId)} (hm : OverMono rec) :
+    ∀ (gs : List GId) (st st' : CSt) (subs : List GId),
+    cloneSubgraphs rec st gs = some (st', subs) → st'.over = false → st.over = false := by
+  intro gs
+  induction gs with
   | nil =>
-    intro wc vm acc w1 vm1 ns h _ hacc hc
+    intro st st' subs hc hov
+    simp only [cloneSubgraphs, Option.some.injEq, Prod.mk.injEq] at hc
+    obtain ⟨rfl, _⟩ := hc; exact hov
+  | cons g rest ih =>
+    intro st st' subs hc hov
+    simp only [cloneSubgraphs] at hc
+    cases hr : rec st g with
+    | none => simp [hr] at hc
+    | some r =>
+      obtain ⟨st1, g1⟩ := r
+      simp only [hr] at hc
+      cases hr2 : cloneSubgraphs rec st1 rest with
+      | none => simp [hr2] at hc
+      | some r2 =>
+        obtain ⟨st2, subs2⟩ := r2
+        simp only [hr2, Option.map_some, Option.some.injEq, Prod.mk.injEq] at hc
+        obtain ⟨rfl, _⟩ := hc
+        exact hm st g st1 g1 hr (ih st1 st2 subs2 hr2 hov)
+
+/-- the pieces of a successful `cloneNode` -/
+theorem cloneNode_parts {rec : CSt → GId → Option (CSt × GId)} {st st' : CSt} {nd : NodeS} {k : NId}
+    (hc : cloneNode rec st nd = some (st', k)) :
+    ∃ ins st1 subs, cloneInputs st.vm nd.inputs = some ins ∧
+      cloneSubgraphs rec st nd.subgraphs = some (st1, subs) ∧
+      k = st1.w.nodes.length ∧
+      st'.vm = (nd.outputs.zip (List.range' st1.w.values.length nd.outputs.length)).reverse ++ st1.vm ∧
+      st'.over = (st1.over || nd.outputs.any (fun o => (vlookup st1.vm o).isSome)) ∧
+      st'.newNodes = st1.newNodes ++ [st1.w.nodes.length] ∧ st'.newGraphs = st1.newGraphs ∧
+      st'.w.values = st1.w.values ++ nd.outputs.map st1.w.value ∧ st'.w.cfgs = st1.w.cfgs ∧
+      st'.w.models = st1.w.models ∧
+      st'.w.nodes = st1.w.nodes ++ [clonedNode st1.w ins nd st'.vm subs] := by
+  unfold cloneNode at hc
+  cases hci : cloneInputs st.vm nd.inputs with
+  | none => simp [hci] at hc
+  | some ins =>
+    simp only [hci] at hc
+    cases hcs : cloneSubgraphs rec st nd.subgraphs with
+    | none => simp [hcs] at hc
+    | some r =>
+      obtain ⟨st1, subs⟩ := r
+      simp only [hcs, Option.some.injEq, Prod.mk.injEq] at hc
+      obtain ⟨rfl, rfl⟩ := hc
+      exact ⟨ins, st1, subs, rfl, rfl, rfl, rfl, rfl, rfl, rfl, rfl, rfl, rfl, rfl⟩
+
+theorem cloneNode_over {rec : CSt → GId → Option (CSt × GId)} (hm : OverMono rec) {st st' : CSt}
+    {nd : NodeS} {k : NId} (hc : cloneNode rec st nd = some (st', k)) (hov : st'.over = false) :
+    st.over = false := by
+  obtain ⟨ins, st1, subs, _, hcs, _, _, ho, _⟩ := cloneNode_parts hc
+  rw [ho, Bool.or_eq_false_iff] at hov
+  exact cloneSubgraphs_over hm _ _ _ _ hcs hov.1
+
+theorem cloneNodes_over {rec : CSt → GId → Option (CSt × GId)} (hm : OverMono rec) (src : World) :
+    ∀ (ns : List NId) (st st' : CSt) (acc res : List NId),
+    cloneNodes rec src st ns acc = some (st', res) → st'.over = false → st.over = false := by
+  intro ns
+  induction ns with
+  | nil =>
+    intro st st' acc res hc hov
     simp only [cloneNodes, Option.some.injEq, Prod.mk.injEq] at hc
-    obtain ⟨rfl, rfl, rfl⟩ := hc
-    exact ⟨h, fun n hn => hacc n (List.mem_reverse.mp hn)⟩
-  | cons nd rest ih =>
-    intro wc vm acc w1 vm1 ns h hnds hacc hc
+    obtain ⟨rfl, _⟩ := hc; exact hov
+  | cons n rest ih =>
+    intro st st' acc res hc hov
     simp only [cloneNodes] at hc
-    cases hcn : cloneNode (wc, vm) nd with
+    cases hcn : cloneNode rec st (src.node n) with
     | none => simp [hcn] at hc
     | some r =>
-      obtain ⟨w2, vm2, k⟩ := r
+      obtain ⟨st1, k⟩ := r
       simp only [hcn] at hc
-      obtain ⟨hinv, hk, hlen⟩ := cloneNode_inv h (hnds nd (by simp)).1 (hnds nd (by simp)).2 hcn
-      refine ih hinv (fun x hx => hnds x (by simp [hx])) ?_ hc
-      intro n hn
-      simp only [List.mem_cons] at hn
-      obtain ⟨extra, hex, _⟩ := h.nodes
-      rcases hn with hn | hn
-      · subst hn
-        rw [hk, hlen, hex]
-        simp only [List.length_append]
-        exact ⟨Nat.le_add_right _ _, Nat.lt_succ_self _⟩
-      · rw [hlen]; exact ⟨(hacc n hn).1, Nat.lt_succ_of_lt (hacc n hn).2⟩
+      exact cloneNode_over hm hcn (ih st1 st' _ res hc hov)
 
-/-- the model `Model.clone` creates -/
-def clonedModel (ms : ModelS) (vm : VMap) (ns : List NId) : ModelS :=
-  { inputs := ms.inputs.filterMap (vlookup vm), nodes := ns, cfgs := ms.cfgs, irVersion := ms.irVersion }
+/-- the pieces of a successful `cloneGraphBody` -/
+theorem cloneGraphBody_parts {rec : CSt → GId → Option (CSt × GId)} {src : World} {st st' : CSt}
+    {g g' : GId} (hc : cloneGraphBody rec src st g = some (st', g')) :
+    ∃ st2 ns, cloneNodes rec src
+        { st with w := ((src.graph g).inputs.foldl cloneValue (st.w, st.vm)).1,
+                  vm := ((src.graph g).inputs.foldl cloneValue (st.w, st.vm)).2 } (src.graph g).nodes [] = some (st2, ns) ∧
+      st'.vm = st2.vm ∧ st'.over = st2.over ∧ st'.newNodes = st2.newNodes ∧
+      st'.w.values = st2.w.values ∧ st'.w.cfgs = st2.w.cfgs ∧ st'.w.nodes = st2.w.nodes ∧
+      st'.w.models = st2.w.models := by
+  unfold cloneGraphBody at hc
+  simp only at hc
+  split at hc
+  · cases hc
+  · rename_i st2 ns hcn
+    simp only [Option.some.injEq, Prod.mk.injEq] at hc
+    obtain ⟨rfl, _⟩ := hc
+    exact ⟨st2, ns, hcn, rfl, rfl, rfl, rfl, rfl, rfl, rfl⟩
 
-theorem DevOK_clone {w : World} (h : DevOK w) (m : MId) : DevOK (cloneModel w m).1 := by
+theorem cloneGraphF_over (src : World) : ∀ (f : Nat), OverMono (cloneGraphF src f) := by
+  intro f
+  induction f with
+  | zero => intro st g st' g' hc; simp [cloneGraphF] at hc
+  | succ f ih =>
+    intro st g st' g' hc hov
+    simp only [cloneGraphF] at hc
+    obtain ⟨st2, ns, hcn, _, ho, _⟩ := cloneGraphBody_parts hc
+    rw [ho] at hov
+    have := cloneNodes_over ih src _ _ _ _ _ hcn hov
+    exact this
+
+/-! #### the invariant -/
+
+/-- invariant of the cloner state relative to the source world `w` -/
+structure CInv (w : World) (cfgs : List CId) (st : CSt) : Prop where
+  inv : CloneInv w cfgs st.w st.vm
+  newOK : ∀ k ∈ st.newNodes, w.nodes.length ≤ k ∧ k < st.w.nodes.length
+
+/-- what `clone_graph` must satisfy on the graphs of the model `ms` of the source world `w` -/
+def RecSpec (w : World) (ms : ModelS) (rec : CSt → GId → Option (CSt × GId)) : Prop :=
+  ∀ st g st' g', g ∈ ms.graphs → rec st g = some (st', g') → st'.over = false → CInv w ms.cfgs st →
+    CInv w ms.cfgs st' ∧ VMono st.vm st'.vm
+
+theorem CloneInv.len_le {w : World} {cfgs : List CId} {wc : World} {vm : VMap} (h : CloneInv w cfgs wc vm) :
+    w.nodes.length ≤ wc.nodes.length := by
+  obtain ⟨extra, hex, _⟩ := h.nodes
+  rw [hex]; simp
+
+theorem cloneSubgraphs_spec {w : World} {ms : ModelS} {rec : CSt → GId → Option (CSt × GId)}
+    (hm : OverMono rec) (hrec : RecSpec w ms rec) : ∀ (gs : List GId) (st st' : CSt) (subs : List GId),
+    (∀ g ∈ gs, g ∈ ms.graphs) → cloneSubgraphs rec st gs = some (st', subs) → st'.over = false →
+    CInv w ms.cfgs st → CInv w ms.cfgs st' ∧ VMono st.vm st'.vm := by
+  intro gs
+  induction gs with
+  | nil =>
+    intro st st' subs _ hc _ hinv
+    simp only [cloneSubgraphs, Option.some.injEq, Prod.mk.injEq] at hc
+    obtain ⟨rfl, _⟩ := hc
+    exact ⟨hinv, VMono.refl _⟩
+  | cons g rest ih =>
+    intro st st' subs hgs hc hov hinv
+    simp only [cloneSubgraphs] at hc
+    cases hr : rec st g with
+    | none => simp [hr] at hc
+    | some r =>
+      obtain ⟨st1, g1⟩ := r
+      simp only [hr] at hc
+      cases hr2 : cloneSubgraphs rec st1 rest with
+      | none => simp [hr2] at hc
+      | some r2 =>
+        obtain ⟨st2, subs2⟩ := r2
+        simp only [hr2, Option.map_some, Option.some.injEq, Prod.mk.injEq] at hc
+        obtain ⟨rfl, _⟩ := hc
+        have ho1 := cloneSubgraphs_over hm _ _ _ _ hr2 hov
+        obtain ⟨b1, c1⟩ := hrec st g st1 g1 (hgs g (by simp)) hr ho1 hinv
+        obtain ⟨b2, c2⟩ := ih st1 st2 subs2 (fun x hx => hgs x (by simp [hx])) hr2 hov b1
+        exact ⟨b2, c1.trans c2⟩
+
+theorem cloneNode_spec {w : World} {ms : ModelS} {rec : CSt → GId → Option (CSt × GId)}
+    (hm : OverMono rec) (hrec : RecSpec w ms rec) {st st' : CSt} {nd : NodeS} {k : NId}
+    (hnd : NodeOK w nd) (hreg : ∀ nc ∈ nd.dev, nc.cfg ∈ ms.cfgs) (hsub : ∀ g ∈ nd.subgraphs, g ∈ ms.graphs)
+    (hc : cloneNode rec st nd = some (st', k)) (hov : st'.over = false) (hinv : CInv w ms.cfgs st) :
+    CInv w ms.cfgs st' ∧ VMono st.vm st'.vm := by
+  obtain ⟨ins, st1, subs, hci, hcs, hk, hvm, ho, hnn, hng, hv1, hc1, hm1, hn1⟩ := cloneNode_parts hc
+  rw [ho, Bool.or_eq_false_iff] at hov
+  obtain ⟨hov1, hnokey⟩ := hov
+  obtain ⟨hinv1, hmono1⟩ := cloneSubgraphs_spec hm hrec _ _ _ _ hsub hcs hov1 hinv
+  obtain ⟨hin1, hin2⟩ := cloneInputs_spec hci
+  have hb := buildNode_inv (w1 := st'.w) (vm1 := st'.vm) hinv1.inv hnd hreg (ins := ins) (subs := subs)
+    (fun v hv => by obtain ⟨b, hb1, hb2⟩ := hin1 v hv; exact ⟨b, hmono1 _ _ hb1, hb2⟩)
+    (fun b hb => by obtain ⟨v, hv1', hv2⟩ := hin2 b hb; exact ⟨v, hv1', hmono1 _ _ hv2⟩)
+    hv1 hc1 hm1 hn1 hvm.symm
+  refine ⟨⟨hb.1, ?_⟩, ?_⟩
+  · intro x hx
+    rw [hnn, List.mem_append, List.mem_singleton] at hx
+    rw [hb.2]
+    rcases hx with hx | hx
+    · exact ⟨(hinv1.newOK x hx).1, Nat.lt_succ_of_lt (hinv1.newOK x hx).2⟩
+    · rw [hx]; exact ⟨hinv1.inv.len_le, Nat.lt_succ_self _⟩
+  · refine hmono1.trans ?_
+    intro x b hx
+    rw [hvm, vlookup_append]
+    cases hz : vlookup (nd.outputs.zip (List.range' st1.w.values.length nd.outputs.length)).reverse x with
+    | none => simpa using hx
+    | some b' =>
+      exfalso
+      have hmem := vlookup_mem hz
+      rw [List.mem_reverse] at hmem
+      have hxo : x ∈ nd.outputs := (List.of_mem_zip hmem).1
+      rw [List.any_eq_false] at hnokey
+      have := hnokey x hxo
+      simp [hx] at this
+
+theorem cloneNodes_spec {w : World} {ms : ModelS} {rec : CSt → GId → Option (CSt × GId)}
+    (hm : OverMono rec) (hrec : RecSpec w ms rec) (hD : DevOK w) (hmo : ModelOK w ms) (hcl : Closed w ms) :
+    ∀ (ns : List NId) (st st' : CSt) (acc res : List NId), (∀ n ∈ ns, n ∈ ms.nodes) →
+    cloneNodes rec w st ns acc = some (st', res) → st'.over = false → CInv w ms.cfgs st →
+    CInv w ms.cfgs st' ∧ VMono st.vm st'.vm := by
+  intro ns
+  induction ns with
+  | nil =>
+    intro st st' acc res _ hc _ hinv
+    simp only [cloneNodes, Option.some.injEq, Prod.mk.injEq] at hc
+    obtain ⟨rfl, _⟩ := hc
+    exact ⟨hinv, VMono.refl _⟩
+  | cons n rest ih =>
+    intro st st' acc res hns hc hov hinv
+    simp only [cloneNodes] at hc
+    cases hcn : cloneNode rec st (w.node n) with
+    | none => simp [hcn] at hc
+    | some r =>
+      obtain ⟨st1, k⟩ := r
+      simp only [hcn] at hc
+      have hn : n ∈ ms.nodes := hns n (by simp)
+      have ho1 := cloneNodes_over hm w _ _ _ _ _ hc hov
+      obtain ⟨b1, c1⟩ := cloneNode_spec hm hrec (hD.node n) (hmo.1 n hn).2 (hcl.2.2.1 n hn) hcn ho1 hinv
+      obtain ⟨b2, c2⟩ := ih st1 st' _ res (fun x hx => hns x (by simp [hx])) hc hov b1
+      exact ⟨b2, c1.trans c2⟩
+
+theorem CloneInv.of_eq {w : World} {cfgs : List CId} {wc wc' : World} {vm : VMap}
+    (h : CloneInv w cfgs wc vm) (hv : wc'.values = wc.values) (hc : wc'.cfgs = wc.cfgs)
+    (hn : wc'.nodes = wc.nodes) (hm : wc'.models = wc.models) : CloneInv w cfgs wc' vm := by
+  have hext : Ext wc wc' := Ext.of_eq hv hc
+  obtain ⟨extra, hex, hok⟩ := h.nodes
+  refine ⟨h.ext.trans hext, by rw [hc, h.cfgsEq], by rw [hm, h.models], ⟨extra, by rw [hn, hex], ?_⟩, ?_, ?_, h.vmInj⟩
+  · intro nd hnd; exact ⟨(hok nd hnd).1.ext hext, (hok nd hnd).2⟩
+  · intro p hp; rw [hv]; exact h.vmLt p hp
+  · intro p hp hlt
+    have : wc'.value p.2 = wc.value p.2 := by simp [World.value, hv]
+    rw [this]; exact h.vmShape p hp hlt
+
+theorem cloneGraphBody_spec {w : World} {ms : ModelS} {rec : CSt → GId → Option (CSt × GId)}
+    (hm : OverMono rec) (hrec : RecSpec w ms rec) (hD : DevOK w) (hmo : ModelOK w ms) (hcl : Closed w ms) :
+    RecSpec w ms (cloneGraphBody rec w) := by
+  intro st g st' g' hg hc hov hinv
+  obtain ⟨st2, ns, hcn, hvm, ho, hnn, hv, hcf, hnd, hmd⟩ := cloneGraphBody_parts hc
+  rw [ho] at hov
+  have hi := foldl_cloneValue_inv (w := w) (cfgs := ms.cfgs) (w.graph g).inputs hinv.inv
+  have hnodes := foldl_cloneValue_nodes (w.graph g).inputs (st.w, st.vm)
+  have hmono0 := foldl_cloneValue_mono (w.graph g).inputs (st.w, st.vm)
+  generalize (w.graph g).inputs.foldl cloneValue (st.w, st.vm) = r at hcn hi hnodes hmono0
+  have hinv0 : CInv w ms.cfgs { st with w := r.1, vm := r.2 } := by
+    refine ⟨hi, ?_⟩
+    intro k hk
+    have hk' : k ∈ st.newNodes := hk
+    refine ⟨(hinv.newOK k hk').1, ?_⟩
+    show k < r.1.nodes.length
+    rw [hnodes]; exact (hinv.newOK k hk').2
+  obtain ⟨b, c⟩ := cloneNodes_spec hm hrec hD hmo hcl _ _ _ _ _ (hcl.2.1 g hg) hcn hov hinv0
+  refine ⟨⟨(b.inv.of_eq hv hcf hnd hmd) |> fun x => hvm ▸ x, ?_⟩, ?_⟩
+  · intro k hk
+    rw [hnn] at hk
+    rw [hnd]; exact b.newOK k hk
+  · rw [hvm]
+    exact hmono0.trans c
+
+theorem cloneGraphF_spec {w : World} {ms : ModelS} (hD : DevOK w) (hmo : ModelOK w ms) (hcl : Closed w ms) :
+    ∀ (f : Nat), RecSpec w ms (cloneGraphF w f) := by
+  intro f
+  induction f with
+  | zero => intro st g st' g' _ hc; simp [cloneGraphF] at hc
+  | succ f ih =>
+    intro st g st' g' hg hc
+    simp only [cloneGraphF] at hc
+    exact cloneGraphBody_spec (cloneGraphF_over w f) ih hD hmo hcl st g st' g' hg hc
+
+theorem DevOK_clone {w : World} (h : DevOK w) (m : MId) (hpre : Pre w (.clone m)) :
+    DevOK (cloneModel w m).1 := by
+  obtain ⟨hcl, hover⟩ := hpre
   unfold cloneModel
-  simp only
-  cases hcn : cloneNodes ((w.model m).inputs.foldl cloneValue (w, [])) ((w.model m).nodes.map w.node) [] with
-  | none => exact h
+  unfold cloneModelX at hover ⊢
+  simp only at hover ⊢
+  cases hcg : cloneGraphF w (w.graphs.length + 1) { w := w } (w.model m).graph with
+  | none => simp only [hcg]; exact h
   | some r =>
-    obtain ⟨w1, vm1, ns⟩ := r
-    simp only
-    obtain ⟨hma, hmb, hmc⟩ := h.model m
-    have hinit := foldl_cloneValue_inv (w := w) (cfgs := (w.model m).cfgs) (w.model m).inputs (CloneInv.init w _)
-    have hnds : ∀ nd ∈ (w.model m).nodes.map w.node, NodeOK w nd ∧ ∀ nc ∈ nd.dev, nc.cfg ∈ (w.model m).cfgs := by
-      intro nd hnd
-      simp only [List.mem_map] at hnd
-      obtain ⟨n, hn, rfl⟩ := hnd
-      exact ⟨h.node n, (hma n hn).2⟩
-    obtain ⟨hinv, hns⟩ := cloneNodes_inv _ hinit hnds (by simp) hcn
-    obtain ⟨extra, hex, hok⟩ := hinv.nodes
-    show DevOK { w1 with models := w1.models ++ [clonedModel (w.model m) vm1 ns] }
-    generalize hnm : clonedModel (w.model m) vm1 ns = newm
-    have hnm' : newm.nodes = ns ∧ newm.cfgs = (w.model m).cfgs := by rw [← hnm]; exact ⟨rfl, rfl⟩
+    obtain ⟨st, g'⟩ := r
+    simp only [hcg] at hover ⊢
+    have hmo := h.model m
+    obtain ⟨hma, hmb, hmc⟩ := hmo
+    have hinit : CInv w (w.model m).cfgs { w := w } := ⟨CloneInv.init w _, by simp⟩
+    obtain ⟨hinv, _⟩ := cloneGraphF_spec h (h.model m) hcl _ _ _ _ _ hcl.1 hcg hover hinit
+    obtain ⟨extra, hex, hok⟩ := hinv.inv.nodes
+    generalize hnm : ({ graph := g', graphs := st.newGraphs, nodes := st.newNodes, cfgs := (w.model m).cfgs, irVersion := (w.model m).irVersion } : ModelS) = newm
+    have hnm' : newm.nodes = st.newNodes ∧ newm.cfgs = (w.model m).cfgs := by rw [← hnm]; exact ⟨rfl, rfl⟩
     clear hnm
-    have hext1 : Ext w1 { w1 with models := w1.models ++ [newm] } := Ext.of_eq rfl rfl
-    have hext : Ext w { w1 with models := w1.models ++ [newm] } := hinv.ext.trans hext1
-    have hnode_old : ∀ n, n < w.nodes.length → World.node { w1 with models := w1.models ++ [newm] } n = w.node n := by
+    have hext1 : Ext st.w { st.w with models := st.w.models ++ [newm] } := Ext.of_eq rfl rfl
+    have hext : Ext w { st.w with models := st.w.models ++ [newm] } := hinv.inv.ext.trans hext1
+    have hnode_old : ∀ n, n < w.nodes.length → World.node { st.w with models := st.w.models ++ [newm] } n = w.node n := by
       intro n hn
       simp [World.node, hex, List.getD_eq_getElem?_getD, List.getElem?_append_left hn]
     constructor
     · intro nd hnd
-      have hnd' : nd ∈ w1.nodes := hnd
+      have hnd' : nd ∈ st.w.nodes := hnd
       rw [hex, List.mem_append] at hnd'
       rcases hnd' with h1 | h1
       · exact (h.1 nd h1).ext hext
       · exact (hok nd h1).1.ext hext1
     · intro ms hms
-      have hms' : ms ∈ w1.models ++ [newm] := hms
-      rw [hinv.models, List.mem_append, List.mem_singleton] at hms'
+      have hms' : ms ∈ st.w.models ++ [newm] := hms
+      rw [hinv.inv.models, List.mem_append, List.mem_singleton] at hms'
       rcases hms' with h1 | h1
       · refine (h.2 ms h1).ext hext ?_ ?_
-        · show w.nodes.length ≤ w1.nodes.length
+        · show w.nodes.length ≤ st.w.nodes.length
           rw [hex]; simp
         · intro n _ hn nc hnc
           rw [hnode_old n hn] at hnc
@@ -1904,16 +2221,16 @@ theorem DevOK_clone {w : World} (h : DevOK w) (m : MId) : DevOK (cloneModel w m)
         obtain ⟨hnm1, hnm2⟩ := hnm'
         refine ⟨?_, ?_, ?_⟩
         · intro n hn
-          have hn' : n ∈ ns := hnm1 ▸ hn
-          obtain ⟨hge, hlt⟩ := hns n hn'
+          have hn' : n ∈ st.newNodes := hnm1 ▸ hn
+          obtain ⟨hge, hlt⟩ := hinv.newOK n hn'
           refine ⟨hlt, ?_⟩
           intro nc hnc
-          have hmem : World.node { w1 with models := w1.models ++ [ms] } n ∈ extra := by
-            have : World.node { w1 with models := w1.models ++ [ms] } n = w1.nodes[n] := by
+          have hmem : World.node { st.w with models := st.w.models ++ [ms] } n ∈ extra := by
+            have : World.node { st.w with models := st.w.models ++ [ms] } n = st.w.nodes[n] := by
               simp [World.node, List.getD_eq_getElem?_getD, hlt]
             rw [this]
             have hlt' : n < (w.nodes ++ extra).length := by rw [← hex]; exact hlt
-            have : w1.nodes[n] = (w.nodes ++ extra)[n] := by simp [hex]
+            have : st.w.nodes[n] = (w.nodes ++ extra)[n] := by simp [hex]
             rw [this, List.getElem_append_right hge]
             exact List.getElem_mem _
           rw [hnm2]
@@ -1923,7 +2240,7 @@ theorem DevOK_clone {w : World} (h : DevOK w) (m : MId) : DevOK (cloneModel w m)
           refine ⟨Nat.lt_of_lt_of_le (hmb c hc').1 hext.clen, ?_⟩
           rw [hext.cfg c (hmb c hc').1]; exact (hmb c hc').2
         · rw [hnm2]
-          have : (w.model m).cfgs.map (fun c => (World.cfg { w1 with models := w1.models ++ [ms] } c).name)
+          have : (w.model m).cfgs.map (fun c => (World.cfg { st.w with models := st.w.models ++ [ms] } c).name)
               = (w.model m).cfgs.map (fun c => (w.cfg c).name) := by
             apply List.map_congr_left
             intro c hc
@@ -2121,6 +2438,7 @@ theorem drop_exact {w : World} (h : ∀ n, ∀ nc ∈ (w.node n).dev, ∀ s ∈ 
         exact ⟨setNode_node_self_dev w _ _ hdev, fun k hk => setNode_node_other w _ k _ hk⟩
   | newModel _ => cases hop
   | newInput _ _ _ => cases hop
+  | newSubgraph _ => cases hop
   | newNode _ _ _ => cases hop
   | rename _ _ => cases hop
   | addCfg _ _ _ _ => cases hop
@@ -2136,6 +2454,7 @@ theorem step_raised_same (w : World) (op : Op) (h : (step w op).2 = .raised) : (
   cases op with
   | newModel ir => simp [step, newModel] at h
   | newInput m name shape => simp [step, newInput] at h
+  | newSubgraph n => simp [step, newSubgraph] at h
   | newNode m ins outs => simp [step, newNode] at h
   | removeNode m n safe =>
     simp only [step, removeNode] at h ⊢
@@ -2189,7 +2508,7 @@ theorem step_raised_same (w : World) (op : Op) (h : (step w op).2 = .raised) : (
         · rename_i h1 h2 h3; simp [h1, h2, h3] at h
       · rename_i h1 h2; simp [h1, h2] at h
   | clone m =>
-    simp only [step, cloneModel] at h ⊢
+    simp only [step, cloneModel, cloneModelX] at h ⊢
     split
     · rfl
     · rename_i hc; simp [hc] at h
@@ -2389,15 +2708,21 @@ theorem serCfg_eq {w : World} {nc : NodeCfg} {p : PCfg} (h : serCfg w nc = some 
       have := optAll_map (g := specProto w) (fun a _ b hb => serSpec_eq hb) ho
       rw [this]; rfl
 
+theorem nodeGated_false {w : World} {ms : ModelS} (hir : 11 ≤ ms.irVersion) (n : NId) :
+    nodeGated w ms n = false := by
+  unfold nodeGated
+  have : ¬ ms.irVersion < 11 := by omega
+  simp [this]
+
 theorem serModelDev_eq {w : World} {m : MId} {protos : List (List PCfg)}
     (h : serModelDev w m = some protos) (hir : 11 ≤ (w.model m).irVersion) :
     protos = (w.model m).nodes.map (fun n => (w.node n).dev.map (cfgProto w)) := by
   unfold serModelDev at h
-  apply optAll_map (f := fun n => serNodeDev w (w.model m).irVersion (w.node n)) _ h
+  apply optAll_map (f := fun n => serNodeDev w (nodeGated w (w.model m) n) (w.node n)) _ h
   intro n _ b hb
   unfold serNodeDev at hb
-  have : ¬ (w.model m).irVersion < 11 := by omega
-  simp only [this, if_false] at hb
+  rw [nodeGated_false hir] at hb
+  simp only [Bool.false_eq_true, if_false] at hb
   exact optAll_map (fun a _ b hb => serCfg_eq hb) hb
 
 theorem optAll_some {α : Type} : ∀ {l : List (Option α)}, (∀ o ∈ l, ∃ a, o = some a) → ∃ r, optAll l = some r := by
